@@ -34,6 +34,14 @@ def scenarios(tier, focus):
         progs2 = [["close"], ["close", "close"], ["tx"], ["close", "tx"], ["tx", "close"]]
         for a, b in itertools.combinations_with_replacement(progs2, 2):
             out.append({"procs": [{"name": "a", "calls": a}, {"name": "b", "calls": b}], "serve": False, "script": [], "big": False})
+        # three goroutines: one holds the output lock while a Close and a transmit call queue behind it
+        for ka, kc in (("tw", "send"), ("send", "encode"), ("encodeel", "sendel"), ("sendiqres", "tw")):
+            out.append({"procs": [{"name": "a", "calls": [ka]}, {"name": "b", "calls": ["close"]}, {"name": "c", "calls": [kc]}], "serve": False, "script": [], "big": False})
+        # the transport fails the write of the closing tag: closed all the same, once
+        for a, b in [(["close", "close"], ["tx"]), (["close", "tx"], ["close"]), (["close"], ["close", "tx"])]:
+            out.append({"procs": [{"name": "a", "calls": a}, {"name": "b", "calls": b}], "serve": False, "script": [], "big": False, "failclose": True})
+        out.append({"procs": [{"name": "a", "calls": ["tx"]}], "serve": True, "script": ["close"], "big": False, "failclose": True})
+        out.append({"procs": [{"name": "a", "calls": ["close", "tx"]}], "serve": True, "script": ["stanza_herr"], "big": False, "failclose": True})
         scripts = [[], ["close"], ["stanza_reply"], ["stanza_herr"], ["streamerr"], ["stanza_reply", "close"], ["stanza", "stanza_herr"]]
         for a in [["close"], ["tx"], ["close", "tx"], ["tx", "close"]]:
             for sc in scripts:
@@ -69,6 +77,8 @@ def scenarios(tier, focus):
 
 
 def explore(ctx, scen, maxpre, maxruns=0, shards=None):
+    if maxruns == 0 and ctx.tier == "thorough":
+        maxruns = 2500      # per scenario: keeps the thorough tier within minutes
     b = ctx.go_build("output")
     shards = shards or min(verif.NCPU, max(1, len(scen)))
     sf = ctx.path("out-scen.ndjson")
